@@ -7,7 +7,9 @@ VARIANTS = {
     # message pipeline of the root package: queues, message store and group context on the scheduler shims
     "sched-msg": {"rewrite": ["internal/queue/*.go", "store_message.go", "group_context.go"], "extra_harness": ["queue_export"]},
     # rendezvous rotation on the virtual clock
-    "vtime": {"rewrite": [["pkg/rendezvous/rotation.go", "time"], ["pkg/rendezvous/rendezvous.go", "time"]]},
+    "vtime": {"rewrite": [["pkg/rendezvous/rotation.go", "time"], ["pkg/rendezvous/rendezvous.go", "time"],
+                          # the head-exchange marshaler compiled on its own against the rendezvous package on the virtual clock
+                          {"src": "message_marshaler.go", "mode": "copy", "dst": "internal/zzverif/mm/message_marshaler.go", "pkg": "mm"}]},
     # secret store with its mutexes visible to the scheduler (datastore operations are points via the harness datastore)
     "sched-secret": {"rewrite": ["pkg/secretstore/*.go"]},
     # notify primitive and its three clients; the connectedness manager and the peer cache are compiled on their
@@ -122,11 +124,15 @@ CHECKS = {
                      "the un-delimited 'full' reader/writer pair is not chunk tolerant by construction and is not part of the property's round-trip claim"],
     ),
     "C17": dict(
-        harness="pkg__rendezvous", run="TestVerifC17", variant="vtime", level="model_checking",
+        variant="vtime", level="model_checking",
+        parts=[
+            dict(name="rotation", harness="pkg__rendezvous", run="TestVerifC17"),
+            dict(name="marshaler", harness="internal__zzverif__mm", run="TestVerifC17MM"),
+        ],
         technique="explicit-state BFS over operation histories of two real RotationInterval instances on a virtual clock (register / resolve / exchange rotation values / advance time across period and grace boundaries), against an independent HMAC reference; plus an exhaustive grid for the pure functions",
         rule="states = distinct canonical (virtual time, both caches, pending timers, reference bookkeeping); successors by replaying the history on fresh objects + one real call; intervals 1 s, 2 s, 1 h; classes = (operation, expectation, outcome)",
         assumptions=["the clock is read through a virtual clock substituted for package time in pkg/rendezvous (rotation.go, rendezvous.go) by source rewriting at check time",
-                     "the swiper's real-time goroutines and the head-exchange marshaler (root package) are outside this harness",
+                     "the swiper's real-time goroutines are outside this harness; the head-exchange marshaler (message_marshaler.go) is compiled on its own (package clause renamed) against pkg/rendezvous on the virtual clock and driven over all operation histories to depth 5/7 (two instances, register / exchange in both directions / advance / foreign seed)",
                      "grace period required by the oracle: RotationGracePeriod after the previous value's deadline"],
     ),
     "C06": dict(
